@@ -278,6 +278,14 @@ func (s *Sched) closeAll() {
 	for i := 0; i < s.nconns; i++ {
 		s.conns[i].forceClose()
 	}
+	// Every parked task looks at its connection again (and finds it closed).
+	// A connection only remembers its latest waiter; if a changed tree makes
+	// two tasks read the same connection, the other one must not be lost.
+	for i := 0; i < s.n; i++ {
+		if s.tasks[i].state == stBlocked {
+			s.tasks[i].state = stRunnable
+		}
+	}
 }
 
 // Switches returns the number of task switches so far.
